@@ -201,6 +201,12 @@ class EmitClient(PathClient):
 
     def on_call(self, it, s, call):
         ev = self.classify(self, s, call)
+        if not ev:
+            # a helper that emits but could not be inlined (returns a value, recursion, too long): what it emits is not seen
+            tgt = self.p.resolve_call(self.f, call)
+            if isinstance(tgt, list) and len(tgt) == 1 and tgt[0] is not self.f and tgt[0].module is self.f.module and tgt[0].cls is None \
+                    and any(isinstance(n, ast.Call) and self.classify(self, None, n) for n in tgt[0].body_nodes()):
+                ev = 'HELPER?'
         if ev:
             for e in (ev if isinstance(ev, (list, tuple)) else [ev]):
                 s = self.push_event(s, e, call)
@@ -256,7 +262,7 @@ def html_classify(c, s, call):
             return 'CLOSE'
         if pre.startswith('<'):
             return 'OPEN'
-        if src_of(call.args[0]) == "'%s>' % self_close(config)":
+        if any(isinstance(x, ast.Call) and isinstance(x.func, ast.Name) and x.func.id == 'self_close' for x in ast.walk(call.args[0])) and suf.endswith('>'):
             return 'SELFCLOSE'
         if suf.endswith('>') or pre == '>':
             return 'GT'
@@ -330,14 +336,16 @@ def path_emit_html(p, res):
                       details=['path : ' + s.show_trace()]))
         else:
             # VALUE present exactly when node.value may be truthy
-            if 'SELFCLOSE' not in seq and 'VALUE' not in seq and c.cond_value(s, 'node.value') is not False and seq.count('SNIPPET') and 'CHILDREN' in seq:
+            if any(e.endswith('?') for e in seq):
+                res.undecided('emission order: ' + flat, 'an emission whose content cannot be classified (a helper that is not inlined, a computed token list)')
+            elif 'SELFCLOSE' not in seq and 'VALUE' not in seq and c.cond_value(s, 'node.value') is not False and seq.count('SNIPPET') and 'CHILDREN' in seq:
                 res.bad(F('PATH-EMIT-HTML', f, f.node, 'text skipped: ' + flat, 'the element text is not emitted although node.value may be non-empty', details=['path : ' + s.show_trace()]))
             elif flat not in seen_flat:
                 seen_flat.add(flat)
                 res.ok(flat)
     # the caret is not forgotten: an element with neither text nor children that is not self-closed gets it
     for seq, s_ in c.exits:
-        if 'OPEN' in seq and 'CHILDREN' in seq and 'CARET' not in seq and 'VALUE' not in seq and 'SELFCLOSE' not in seq \
+        if 'OPEN' in seq and 'CHILDREN' in seq and 'CARET' not in seq and 'VALUE' not in seq and 'SELFCLOSE' not in seq and not any(e.endswith('?') for e in seq) \
                 and c.cond_value(s_, 'node.value') is False and c.cond_value(s_, 'node.children') is False:
             res.bad(F('PATH-EMIT-HTML', f, f.node, 'no caret: ' + ' '.join(seq), 'an element without text and children is printed without the caret tabstop', details=['path : ' + s_.show_trace()]))
     # CLOSE prints the same name as OPEN, and that name went through tag_name()
